@@ -414,19 +414,6 @@ theorem Glob.star_drop {p s : Bytes} (k : Nat) (h : Glob p (s.drop k)) : Glob (4
     | nil => exact .starSkip (by simpa using h)
     | cons c s => exact .starEat c (ih (by simpa using h))
 
-theorem Glob.of_star {q s : Bytes} (h : Glob q s) : ∀ p, q = 42 :: p → ∃ k, Glob p (s.drop k) := by
-  induction h with
-  | nil => intro p e; cases e
-  | starSkip h _ => intro p e; cases e; exact ⟨0, by simpa using h⟩
-  | starEat c _ ih =>
-    intro p e
-    obtain ⟨k, hk⟩ := ih p e
-    exact ⟨k + 1, by simpa using hk⟩
-  | any c _ _ => intro p e; cases e
-  | esc c _ _ => intro p e; cases e
-  | lastBackslash => intro p e; cases e
-  | lit a h42 _ _ _ _ => intro p e; cases e; exact absurd rfl h42
-
 theorem glob_of_Glob {p s : Bytes} (h : Glob p s) : glob p s = true := by
   induction h with
   | nil => simp [glob_nil]
